@@ -1,7 +1,7 @@
 """C04 — Reopen preserves logical content (structural necessary conditions)."""
 from .. import model as M
 from .. import paths
-from ..mirutil import recv_field, recv_fields, backward_calls, switch_on
+from ..mirutil import recv_field, recv_fields, backward_calls, backward_slice, switch_on
 from ..facts import op_local
 
 EXPLANATION = (
@@ -21,6 +21,7 @@ def run(ctx):
     ctx.rule("C04.1", "commit logs TombstoneEdge before CreateEdge (replay's tombstone_edge erases staged edges)")
     ctx.rule("C04.2", "every IdMap::apply_* that replay calls persists its effect to pages; close rewrite re-emits CreateLabel")
     ctx.rule("C04.3", "rewrite_as_snapshot is reachable only when the published runs are empty")
+    ctx.rule("C04.4", "the checkpoint watermark (up_to_txid) is below every transaction id that can still be handed out")
 
     # ---- clause 1 ---------------------------------------------------------
     tb = ctx.body(MEM + "::tombstone_edge")
@@ -106,3 +107,36 @@ def run(ctx):
         ctx.oblige(ok, "C04.3", "checkpoint_on_close:rewrite#%d-unguarded" % c.ordinal,
                    "the WAL is rewritten as a snapshot although published runs (data that exists only in the log) may be non-empty", c.loc(),
                    sample={"rewrite": c.loc(), "guards": guards})
+
+    # ---- clause 4 ---------------------------------------------------------
+    # Recovery skips every transaction whose id is <= Checkpoint.up_to_txid.  If the watermark can equal an id that
+    # `next_txid` hands out later, that later (acknowledged) transaction is skipped on the next reopen.
+    n4 = 0
+    for fn in (M.COMPACT, M.CHECKPOINT_ON_CLOSE):
+        b = ctx.body(fn)
+        allocs = [c for c in b.calls() if c.name.endswith("::fetch_add") and (recv_field(b, c, 0) or ("",))[0] == "next_txid"]
+        for bi, blk in enumerate(b.blocks):
+            for st in blk["s"]:
+                if not (st[0] == "a" and st[2][0] == "agg" and st[2][2] == M.WALRECORD and st[2][3] == "Checkpoint"):
+                    continue
+                ops = dict(zip(st[2][5], st[2][4]))
+                l = op_local(ops["up_to_txid"]) if "up_to_txid" in ops else None
+                if l is None:
+                    continue
+                n4 += 1
+                calls, fields = backward_slice(b, l)
+                loads = [c for c in calls if M.is_atomic_load(c.name) and (recv_field(b, c, 0) or ("",))[0] == "next_txid"]
+                if not loads:
+                    srcs = sorted({c.name.split("::")[-1] for c in calls})
+                    ctx.instance("C04.4", "%s: watermark derives from %s (not from the id allocator)" % (fn.split("::")[-1], srcs[:6]))
+                    ctx.oblige(True, "C04.4", fn + ":watermark", "")
+                    continue
+                minus = [c for c in calls if c.name.split("::")[-1] in ("saturating_sub", "checked_sub", "wrapping_sub")]
+                before_alloc = all(not any(ld.bb in b.reachable([a.target]) for a in allocs if a.target is not None) for ld in loads)
+                ctx.instance("C04.4", "%s: watermark = next_txid load, minus-one=%s, loaded before any id allocation=%s" % (fn.split("::")[-1], bool(minus), before_alloc))
+                ctx.oblige(bool(minus) and before_alloc, "C04.4", fn + ":watermark-covers-unallocated-txid",
+                           "the checkpoint watermark is taken from the id allocator without staying below the next id it will hand out "
+                           "(missing `- 1`, or read after this function allocated an id): the first transaction committed after reopen gets a "
+                           "txid <= up_to_txid and is skipped by recovery on the following reopen", "%s:%d" % (b.file, st[3]),
+                           sample={"fn": fn, "loads": [x.loc() for x in loads], "allocs": [x.loc() for x in allocs]})
+    ctx.floor("C04.4", "Checkpoint records built in the engine", n4, 2)
